@@ -160,7 +160,14 @@ impl Chan {
         if masked {
             // A: constant mask (inactive channels randomly passed as empty slices); B: no mask
             let mut ops_a = ops.clone();
-            for op in ops_a.iter_mut() {
+            // 40 %: the mask is only passed for the first calls; from `switch_at` on the calls carry None again
+            // and every channel must be processed again (written at once, and - once the filter has been
+            // refilled - identical to the twin that never saw a mask)
+            let switch_at: usize = if rng.chance(0.4) { rng.ui(1, ops.len().max(1)) } else { usize::MAX };
+            for (i, op) in ops_a.iter_mut().enumerate() {
+                if i >= switch_at {
+                    continue;
+                }
                 match op {
                     Op::Proc { mask: m, empty_inactive, .. } => {
                         *m = Some(mask.clone());
@@ -170,7 +177,7 @@ impl Chan {
                     _ => {}
                 }
             }
-            let desc = desc.with("ops", ops_json(&ops_a));
+            let desc = desc.with("mask_removed_from_op", if switch_at == usize::MAX { J::Null } else { J::u(switch_at) }).with("ops", ops_json(&ops_a));
             set_desc(&desc);
             cr.desc = desc;
             if ctx.describe {
@@ -185,7 +192,16 @@ impl Chan {
             };
             let mut b = Runner::<T>::fresh_direct(&cfg, Sig::noise(s1)).unwrap();
             let any_active = mask.iter().any(|x| *x);
+            // input frames fed since the mask was removed; the formerly inactive channels are compared once
+            // two filter lengths / FFT blocks plus two calls have gone by
+            let mut fed_since_switch = 0usize;
+            let mut calls_since_switch = 0usize;
+            let settle = 2 * if cfg.kind.is_fft() { cfg.fft_sizes().0 } else { cfg.flen() } + 16;
             for (i, (oa, ob)) in ops_a.iter().zip(ops.iter()).enumerate() {
+                if matches!(oa, Op::Reset) && i >= switch_at {
+                    // a reset re-aligns everything at once
+                    fed_since_switch = usize::MAX / 2;
+                }
                 let sb = b.step(ob);
                 let sa = match guarded(|| a.step(oa)) {
                     Ok(x) => x,
@@ -208,11 +224,25 @@ impl Chan {
                 if d.is_none() && (sa.before != sb.before || sa.after != sb.after) {
                     d = Some(format!("getters differ: masked {:?}/{:?} vs unmasked {:?}/{:?}", sa.before, sa.after, sb.before, sb.after));
                 }
+                let unmasked_now = i >= switch_at;
+                let settled = unmasked_now && fed_since_switch >= settle && calls_since_switch >= 2;
+                if unmasked_now && oa.is_process() {
+                    if let Ok((n_in, _)) = sa.res {
+                        fed_since_switch = fed_since_switch.saturating_add(n_in);
+                    }
+                    calls_since_switch += 1;
+                }
                 if d.is_none() {
                     for ch in 0..cfg.channels {
-                        if mask[ch] {
+                        if mask[ch] || settled {
                             if let Some(x) = diff_chan(&sa.out[ch], &sb.out[ch]) {
-                                d = Some(format!("active channel {}: {}", ch, x));
+                                d = Some(format!("{} channel {}: {}", if mask[ch] { "active".to_string() } else { format!("(mask removed {} calls and {} input frames ago) formerly inactive", calls_since_switch, fed_since_switch) }, ch, x));
+                                break;
+                            }
+                        } else if unmasked_now {
+                            // no mask: the channel must have been processed (same frame count as the twin)
+                            if oa.is_process() && sa.res.is_ok() && sa.out[ch].len() != sb.out[ch].len() {
+                                d = Some(format!("channel {} was inactive under the earlier mask; this call carries no mask but it received {} frames, the twin {}", ch, sa.out[ch].len(), sb.out[ch].len()));
                                 break;
                             }
                         } else if !sa.out[ch].is_empty() {
@@ -228,6 +258,12 @@ impl Chan {
             }
             for f in a.findings.iter().filter(|f| f.prop == "C11") {
                 cr.viols.push(Viol { prop: "C11".into(), clause: f.clause.into(), detail: f.detail.clone(), step: f.step });
+            }
+            // a call without a mask that leaves part of an output channel unwritten, after earlier masked calls
+            if let Some(f) = a.findings.iter().find(|f| f.clause == "unwritten_within_count" && f.step >= switch_at) {
+                if cr.viols.is_empty() && !b.findings.iter().any(|g| g.clause == "unwritten_within_count") {
+                    cr.viols.push(Viol { prop: "C11".into(), clause: "channel_skipped_after_mask_removed".into(), detail: format!("op {} carries no mask (an earlier call did): {}", f.step, f.detail), step: f.step });
+                }
             }
             if a.findings.iter().chain(b.findings.iter()).any(|f| f.prop == "C03") {
                 cr.inconclusive = Some("C03 event in this history".into());
@@ -426,23 +462,34 @@ impl Malformed {
                 }
             }};
         }
-        for r in bad_ratios {
-            expect_err!(format!("SincFixedIn::<f64>::new(ratio={:?})", r), SincFixedIn::<f64>::new(r, 2.0, p(), 64, 1), ResamplerConstructionError::InvalidRatio(_));
-            expect_err!(format!("SincFixedOut::<f32>::new(ratio={:?})", r), SincFixedOut::<f32>::new(r, 2.0, p(), 64, 1), ResamplerConstructionError::InvalidRatio(_));
-            expect_err!(format!("FastFixedIn::<f32>::new(ratio={:?})", r), FastFixedIn::<f32>::new(r, 2.0, PolynomialDegree::Cubic, 64, 1), ResamplerConstructionError::InvalidRatio(_));
-            expect_err!(format!("FastFixedOut::<f64>::new(ratio={:?})", r), FastFixedOut::<f64>::new(r, 2.0, PolynomialDegree::Linear, 64, 1), ResamplerConstructionError::InvalidRatio(_));
+        macro_rules! table {
+            ($t:ty, $tn:expr) => {{
+                let scalar = || -> Box<dyn rubato::sinc_interpolator::SincInterpolator<$t>> { Box::new(rubato::sinc_interpolator::ScalarInterpolator::<$t>::new(16, 4, 0.9, WindowFunction::Hann)) };
+                for r in bad_ratios {
+                    expect_err!(format!("SincFixedIn::<{}>::new(ratio={:?})", $tn, r), SincFixedIn::<$t>::new(r, 2.0, p(), 64, 1), ResamplerConstructionError::InvalidRatio(_));
+                    expect_err!(format!("SincFixedOut::<{}>::new(ratio={:?})", $tn, r), SincFixedOut::<$t>::new(r, 2.0, p(), 64, 1), ResamplerConstructionError::InvalidRatio(_));
+                    expect_err!(format!("SincFixedIn::<{}>::new_with_interpolator(ratio={:?})", $tn, r), SincFixedIn::<$t>::new_with_interpolator(r, 2.0, SincInterpolationType::Linear, scalar(), 64, 1), ResamplerConstructionError::InvalidRatio(_));
+                    expect_err!(format!("SincFixedOut::<{}>::new_with_interpolator(ratio={:?})", $tn, r), SincFixedOut::<$t>::new_with_interpolator(r, 2.0, SincInterpolationType::Cubic, scalar(), 64, 1), ResamplerConstructionError::InvalidRatio(_));
+                    expect_err!(format!("FastFixedIn::<{}>::new(ratio={:?})", $tn, r), FastFixedIn::<$t>::new(r, 2.0, PolynomialDegree::Cubic, 64, 1), ResamplerConstructionError::InvalidRatio(_));
+                    expect_err!(format!("FastFixedOut::<{}>::new(ratio={:?})", $tn, r), FastFixedOut::<$t>::new(r, 2.0, PolynomialDegree::Linear, 64, 1), ResamplerConstructionError::InvalidRatio(_));
+                }
+                for m in bad_rel {
+                    expect_err!(format!("SincFixedIn::<{}>::new(max_rel={:?})", $tn, m), SincFixedIn::<$t>::new(1.5, m, p(), 64, 2), ResamplerConstructionError::InvalidRelativeRatio(_));
+                    expect_err!(format!("SincFixedOut::<{}>::new(max_rel={:?})", $tn, m), SincFixedOut::<$t>::new(1.5, m, p(), 64, 2), ResamplerConstructionError::InvalidRelativeRatio(_));
+                    expect_err!(format!("SincFixedIn::<{}>::new_with_interpolator(max_rel={:?})", $tn, m), SincFixedIn::<$t>::new_with_interpolator(1.5, m, SincInterpolationType::Nearest, scalar(), 64, 2), ResamplerConstructionError::InvalidRelativeRatio(_));
+                    expect_err!(format!("SincFixedOut::<{}>::new_with_interpolator(max_rel={:?})", $tn, m), SincFixedOut::<$t>::new_with_interpolator(1.5, m, SincInterpolationType::Quadratic, scalar(), 64, 2), ResamplerConstructionError::InvalidRelativeRatio(_));
+                    expect_err!(format!("FastFixedIn::<{}>::new(max_rel={:?})", $tn, m), FastFixedIn::<$t>::new(1.5, m, PolynomialDegree::Septic, 64, 2), ResamplerConstructionError::InvalidRelativeRatio(_));
+                    expect_err!(format!("FastFixedOut::<{}>::new(max_rel={:?})", $tn, m), FastFixedOut::<$t>::new(1.5, m, PolynomialDegree::Nearest, 64, 2), ResamplerConstructionError::InvalidRelativeRatio(_));
+                }
+                for (a, b) in [(0usize, 48000usize), (44100, 0), (0, 0)] {
+                    expect_err!(format!("FftFixedIn::<{}>::new({}, {})", $tn, a, b), FftFixedIn::<$t>::new(a, b, 64, 2, 1), ResamplerConstructionError::InvalidSampleRate { .. });
+                    expect_err!(format!("FftFixedOut::<{}>::new({}, {})", $tn, a, b), FftFixedOut::<$t>::new(a, b, 64, 2, 1), ResamplerConstructionError::InvalidSampleRate { .. });
+                    expect_err!(format!("FftFixedInOut::<{}>::new({}, {})", $tn, a, b), FftFixedInOut::<$t>::new(a, b, 64, 1), ResamplerConstructionError::InvalidSampleRate { .. });
+                }
+            }};
         }
-        for m in bad_rel {
-            expect_err!(format!("SincFixedIn::<f32>::new(max_rel={:?})", m), SincFixedIn::<f32>::new(1.5, m, p(), 64, 2), ResamplerConstructionError::InvalidRelativeRatio(_));
-            expect_err!(format!("SincFixedOut::<f64>::new(max_rel={:?})", m), SincFixedOut::<f64>::new(1.5, m, p(), 64, 2), ResamplerConstructionError::InvalidRelativeRatio(_));
-            expect_err!(format!("FastFixedIn::<f64>::new(max_rel={:?})", m), FastFixedIn::<f64>::new(1.5, m, PolynomialDegree::Septic, 64, 2), ResamplerConstructionError::InvalidRelativeRatio(_));
-            expect_err!(format!("FastFixedOut::<f32>::new(max_rel={:?})", m), FastFixedOut::<f32>::new(1.5, m, PolynomialDegree::Nearest, 64, 2), ResamplerConstructionError::InvalidRelativeRatio(_));
-        }
-        for (a, b) in [(0usize, 48000usize), (44100, 0), (0, 0)] {
-            expect_err!(format!("FftFixedIn::<f64>::new({}, {})", a, b), FftFixedIn::<f64>::new(a, b, 64, 2, 1), ResamplerConstructionError::InvalidSampleRate { .. });
-            expect_err!(format!("FftFixedOut::<f32>::new({}, {})", a, b), FftFixedOut::<f32>::new(a, b, 64, 2, 1), ResamplerConstructionError::InvalidSampleRate { .. });
-            expect_err!(format!("FftFixedInOut::<f64>::new({}, {})", a, b), FftFixedInOut::<f64>::new(a, b, 64, 1), ResamplerConstructionError::InvalidSampleRate { .. });
-        }
+        table!(f32, "f32");
+        table!(f64, "f64");
         st.add("invalid_constructor_calls", n as f64);
         v
     }
@@ -462,7 +509,7 @@ impl Monitor for Malformed {
     fn case(&self, ctx: &Ctx, idx: u64, st: &mut Stats) -> CaseResult {
         if idx == 0 {
             // case 0: the constructor table
-            let desc = J::obj().with("constructors", J::s("non-positive ratios, max_relative < 1, zero sample rates, all seven types"));
+            let desc = J::obj().with("constructors", J::s("non-positive ratios, max_relative < 1, zero sample rates: all seven types, both sample types, new and new_with_interpolator"));
             set_desc(&desc);
             let mut cr = CaseResult { desc, ..Default::default() };
             if !ctx.describe {
